@@ -439,7 +439,7 @@ example : (⟨false, 100, 50, 5, 0, 1, 1, 10, 0, 0, 20, 105, 51⟩ : VMarket).va
 example : (⟨true, 51, 50, 0, 0, 0, 0, 0, 0, 0, 0, 101, 0⟩ : VMarket).validate 1 0 = some false := by decide
 
 /-! ### ===== Stage 3: solvency over interleaved deposits, withdrawals and swap orders (`Gmx.Life2`) =====
-Tied to the real `gmsol_store::entry` by `harness/h_store/src/bin/life2.rs` (engine `l2`). -/
+Tied to the real `gmsol_store::entry` by `harness/h_store/src/bin/l2life.rs` (engine `l2`). -/
 section Life2
 open Gmx.Life2
 
